@@ -60,6 +60,7 @@ struct Ctx {
     bool cancel_seen = false;
     uint64_t hist = 7;                   // history fingerprint
     uint64_t invocations = 0, behav_fired = 0, ops_done = 0;
+    struct aws_linked_list staging; // caller-owned list that borrows task->node while a task is not scheduled
     int cleanup_sched_budget = 0; // bounds task functions that keep scheduling during clean-up (a caller-made infinite loop otherwise)
 };
 static Ctx *g = nullptr;
@@ -88,13 +89,29 @@ void m_schedule(Ctx &c, TaskM &t, bool asap, uint64_t when) {
     if (!asap) c.last_sched_time = when;
 }
 
-void do_sched_now(Ctx &c, TaskM &t) {
+// task->node is a public field and a task that is not scheduled is the caller's: aws_thread_scheduler parks tasks in a list of its
+// own through it. Here the caller empties that list wholesale (re-initialises it), so the node still carries links when the task
+// is handed to the scheduler - which resets the node on every schedule call.
+void stale_links(Ctx &c, TaskM &t) {
+    aws_linked_list_init(&c.staging);
+    aws_linked_list_push_back(&c.staging, &t.task.node);
+    aws_linked_list_init(&c.staging);
+    sim::probe("task_scheduled_with_stale_list_links");
+}
+void check_staging(Ctx &c, const char *where) {
+    if (c.staging.head.next != &c.staging.tail || c.staging.tail.prev != &c.staging.head || c.staging.head.prev || c.staging.tail.next)
+        sim::violation("c07:foreign-write", "%s: the caller's own (empty) list was modified by the scheduler", where);
+}
+
+void do_sched_now(Ctx &c, TaskM &t, bool stale = false) {
     if (t.state != IDLE) return; // scheduling an already scheduled task is a caller error: not generated
+    if (stale && !t.running) stale_links(c, t);
     m_schedule(c, t, true, 0);
     aws_task_scheduler_schedule_now(&c.sched, &t.task);
 }
-void do_sched_fut(Ctx &c, TaskM &t, uint64_t when, bool fail_push) {
+void do_sched_fut(Ctx &c, TaskM &t, uint64_t when, bool fail_push, bool stale = false) {
     if (t.state != IDLE) return;
+    if (stale && !t.running) stale_links(c, t);
     m_schedule(c, t, false, when);
     if (fail_push) sim::set_pushref_next(true);
     if (c.in_cleanup) sim::probe("scheduled_during_cleanup");
@@ -297,13 +314,14 @@ RunInfo run(const sim::Plan &plan) {
     sim::set_pushref_mode(2, 0);
     c.now = sim::now_boot();
     if (aws_task_scheduler_init(&c.sched, c.alloc)) sim::violation("c07:harness", "init failed");
+    aws_linked_list_init(&c.staging);
     for (const sim::Op &op : plan.ops) {
         if (op.kind == OP_BEHAV) continue;
         c.ops_done++;
         sim::note(sim::PK_HARNESS, nullptr, op.kind);
         switch (op.kind) {
-            case OP_SCHED_NOW: do_sched_now(c, c.tasks[(size_t)op.a % c.tasks.size()]); break;
-            case OP_SCHED_FUT: do_sched_fut(c, c.tasks[(size_t)op.a % c.tasks.size()], abs_time(c, (int)op.b, op.c), op.d != 0); break;
+            case OP_SCHED_NOW: do_sched_now(c, c.tasks[(size_t)op.a % c.tasks.size()], op.b != 0); break;
+            case OP_SCHED_FUT: do_sched_fut(c, c.tasks[(size_t)op.a % c.tasks.size()], abs_time(c, (int)op.b, op.c), (op.d & 1) != 0, (op.d & 2) != 0); break;
             case OP_CANCEL: do_cancel(c, c.tasks[(size_t)op.a % c.tasks.size()], op.b != 0, op.c != 0); break;
             case OP_RUN_ALL: {
                 uint64_t now;
@@ -348,6 +366,7 @@ RunInfo run(const sim::Plan &plan) {
         }
         if (!aws_task_scheduler_is_valid(&c.sched)) sim::violation("c07:invalid", "scheduler validity predicate false after op %d", op.kind);
         check_has_tasks(c, "after op");
+        check_staging(c, "after op");
         simalloc::check_all("after op");
     }
     do_cleanup_reinit(c, false);
@@ -418,12 +437,12 @@ void gen(uint64_t seed, int tier, sim::Plan &p) {
             op.b = first ? r.range(nt - nt / 8, nt) : r.range(1, nt);
             if (op.kind == OP_BULK_SCHED) { op.c = r.pick(std::vector<int64_t>{0, 1, 2, 3, 3, 4}); op.d = r.pick(deltas); }
         } else
-        if (k < 15) { op.kind = OP_SCHED_NOW; op.a = r.range(0, nt - 1); }
+        if (k < 15) { op.kind = OP_SCHED_NOW; op.a = r.range(0, nt - 1); op.b = r.chance(0.1); }
         else if (k < 50) {
             op.kind = OP_SCHED_FUT; op.a = r.range(0, nt - 1);
             op.b = r.pick(std::vector<int64_t>{0, 1, 2, 3, 3, 3, 3, 4, 5, 5});
             op.c = r.pick(deltas);
-            op.d = r.chance(pf);
+            op.d = (r.chance(pf) ? 1 : 0) + (r.chance(0.1) ? 2 : 0);
         } else if (k < 62) { op.kind = OP_CANCEL; op.a = r.range(0, nt - 1); op.b = r.chance(0.3); op.c = r.chance(0.5); }
         else if (k < 85) {
             op.kind = OP_RUN_ALL;
@@ -443,8 +462,8 @@ std::string op_text(const sim::Op &op) {
     static const char *rm[] = {"now", "repeat-last", "now-d", "0", "UINT64_MAX", "advance-d-then-now"};
     static const char *ba[] = {"?", "schedule_now", "schedule_future", "reschedule-self-now", "reschedule-self-future", "cancel", "schedule-then-cancel"};
     switch (op.kind) {
-        case OP_SCHED_NOW: snprintf(b, sizeof b, "schedule_now(task %lld)", (long long)op.a); break;
-        case OP_SCHED_FUT: snprintf(b, sizeof b, "schedule_future(task %lld, %s, d=%lld)%s", (long long)op.a, tm[op.b % 6], (long long)op.c, op.d ? " [push_ref fails]" : ""); break;
+        case OP_SCHED_NOW: snprintf(b, sizeof b, "schedule_now(task %lld)%s", (long long)op.a, op.b ? " [task->node still carries links of a caller list]" : ""); break;
+        case OP_SCHED_FUT: snprintf(b, sizeof b, "schedule_future(task %lld, %s, d=%lld)%s%s", (long long)op.a, tm[op.b % 6], (long long)op.c, (op.d & 1) ? " [push_ref fails]" : "", (op.d & 2) ? " [task->node still carries links of a caller list]" : ""); break;
         case OP_CANCEL: snprintf(b, sizeof b, "cancel(task %lld)%s%s", (long long)op.a, op.b ? " [also if it is not in the scheduler" : "", op.b ? (op.c ? ", after aws_task_init]" : "]") : ""); break;
         case OP_RUN_ALL: snprintf(b, sizeof b, "run_all(%s, d=%lld)", rm[op.a % 6], (long long)op.b); break;
         case OP_HAS_TASKS: snprintf(b, sizeof b, "has_tasks()"); break;
